@@ -613,7 +613,21 @@ def globals_audit(cfg):
         r = run(cmd)
         if r.returncode != 0:
             raise TranslateError("clang failed on %s" % f)
+        cur_file = ""
         for line in r.stdout.decode(errors="replace").splitlines():
+            # clang prints the file name of a top-level declaration only when it changes
+            mt = re.match(r"^[|`]-\w+ \S+ (?:prev \S+ )?<([^>]*)>", line)
+            if mt:
+                mf = re.match(r"^(/[^:]+):", mt.group(1))
+                if mf:
+                    cur_file = mf.group(1)
+            # function-level objects with static storage duration are shared state just the same
+            ms = re.search(r"VarDecl \S+ <[^>]*> \S+(?: \S+)*? (\w+) '([^']*)' static", line)
+            if ms and not re.match(r"^[|`]-VarDecl", line) and cur_file.startswith(REPO):
+                base = ms.group(2).split("[")[0].strip()
+                if not (base.startswith("const ") or base.endswith(" const") or "*const" in base.replace(" ", "")):
+                    out.append("%s:%s(function-static)" % (f, ms.group(1)))
+                continue
             # top-level declarations are the ones prefixed by exactly "|-" or "`-"
             m = re.match(r"^[|`]-VarDecl\s+\S+\s+(?:prev \S+ )?<([^>]*)>\s+\S+(?: \S+)*?\s(\w+) '([^']*)'", line)
             if not m:
